@@ -168,19 +168,24 @@ def run(ctx, chk):
                   "State::Complete is constructed at exactly one site, in parse_inst, on the path where the first word of an instruction "
                   "could not be read")
     f = ctx.rspirv.fn(PAR, "consume", "Action")
-    st = f["body"][1]
-    m = unblock(st[0][1]) if len(st) == 1 else None
+    from ..symeval import SymEval, Hooks
+
+    class AH(Hooks):
+        def __init__(self, v):
+            self.v = v
+
+        def path(self, p):
+            return self.v if p == "self" else NotImplemented
     table = {}
-    if m is not None and m[0] == "match" and path_of(m[1]) == "self":
-        for pat, guard, body in m[2]:
-            table[show(pat)] = show(unblock(body))
-    want = {"Action::Continue": "Ok(())", "Action::Stop": "Err(State::ConsumerStopRequested)"}
-    err_arm = [(k, v) for k, v in table.items() if k.startswith("Action::Error(")]
-    good = all(table.get(k) == v for k, v in want.items()) and len(table) == 3 and len(err_arm) == 1
-    if good:
-        var = err_arm[0][0][len("Action::Error("):-1]
-        good = err_arm[0][1] == "Err(State::ConsumerError(%s))" % var
-    chk.check(R4, good, "Action::consume", "mapping is %s" % table, raw.where("consume", "Action"), sample=table)
+    try:
+        for name, v in (("Continue", ("enum", "Action::Continue", [])), ("Stop", ("enum", "Action::Stop", [])),
+                        ("Error", ("enum", "Action::Error", [("sym", "CONSUMER_ERROR")]))):
+            table[name] = SymEval(AH(v), "Action::consume").run(f, {})
+        want = {"Continue": ("ok", ("unit",)), "Stop": ("err", ("enum", "State::ConsumerStopRequested", [])),
+                "Error": ("err", ("enum", "State::ConsumerError", [("sym", "CONSUMER_ERROR")]))}
+        chk.check(R4, table == want, "Action::consume", "mapping is %s" % table, raw.where("consume", "Action"), sample=str(table))
+    except Anchor as ex:
+        chk.bad(R4, "Action::consume", "not analysable: %s" % ex, raw.where("consume", "Action"))
     csites = []
     for p, fn_ in mir.fns.items():
         for b in fn_["blocks"]:
